@@ -6,6 +6,7 @@ import ClaripyProofs.Lemmas.Solver.CompositeQueries
 import ClaripyProofs.Lemmas.Solver.CompositeReabsorb
 import ClaripyProofs.Lemmas.Solver.CompositeKeep
 import ClaripyProofs.Lemmas.Solver.CompositeReplace
+import ClaripyProofs.Lemmas.Solver.CompositeExtrema
 /-!
 # C12 — SolverComposite answers like a monolithic solver
 
@@ -436,14 +437,43 @@ theorem C12_reabsorb_keeps_invariant {E : Env} {R : Con → Prop} {RE : Exp → 
     (s' : CSt) (hrun : reabsorb E m s = (.ok (), s')) : ∃ Us', CInv R RE E U Us' s' :=
   reabsorbKeeps H U Us s m h hm hkeys hsup hsem hsat hun s' hrun
 
-/-- **C12 for whole histories of CompositeFrontend**: ANY history of `add` / `satisfiable()` / `eval` / `batch_eval` / `solution`
-(registered symbolic expressions over ANY variables, no extra constraints) / `is_true` / `is_false` (any extra constraints) on one
-composite, from the empty one: EVERY answer of the model is the one `Judge` demands for all the constraints added so far (or an
-honest give-up of a child's backend).  No hypothesis besides `SolverHyps`. -/
+/-- **`max(e)` of the composite** (registered symbolic expression, no extra constraints) in ANY state satisfying the invariant: the
+optimum over ALL constraints added, in the requested signedness (or an honest give-up); the invariant holds again afterwards -/
+theorem C12_max_correct {E : Env} {R : Con → Prop} {RE : Exp → Prop} (H : SolverHyps R RE E) {U : List Con}
+    {Us : List (List Con)} {s : CSt} (h : CInv R RE E U Us s) (e : Exp) (he : RE e) (hc : e.conc = none) (signed : Bool) :
+    JudgeOrGiveUp E U (.max e [] signed) (compStep E s (.max e [] signed)).1 ∧
+    ∃ Us', CInv R RE E U Us' (compStep E s (.max e [] signed)).2 :=
+  compExtremum_step H h true e he hc signed
+
+/-- **`min(e)` of the composite**, likewise -/
+theorem C12_min_correct {E : Env} {R : Con → Prop} {RE : Exp → Prop} (H : SolverHyps R RE E) {U : List Con}
+    {Us : List (List Con)} {s : CSt} (h : CInv R RE E U Us s) (e : Exp) (he : RE e) (hc : e.conc = none) (signed : Bool) :
+    JudgeOrGiveUp E U (.min e [] signed) (compStep E s (.min e [] signed)).1 ∧
+    ∃ Us', CInv R RE E U Us' (compStep E s (.min e [] signed)).2 :=
+  compExtremum_step H h false e he hc signed
+
+/-- the footprint of the child's `min` / `max` (what `_reabsorb_solver` and the bookkeeping need of the call): `variables` and
+`constraints` unchanged, cached models within the variables -/
+theorem C12_child_footprint_extrema {E : Env} {R : Con → Prop} {RE : Exp → Prop} (H : SolverHyps R RE E) {G : St → Prop}
+    {U : List Con} (isMax : Bool) (e : Exp) (he : RE e) (hc : e.conc = none) (extra : List Con) (signed : Bool) :
+    FootSpec R RE E G U (if isMax then (childOps E).max e extra signed else (childOps E).min e extra signed) :=
+  child_extremum_foot H isMax e he hc extra signed
+
+/-- **C12 for whole histories of CompositeFrontend**: ANY history of `add` / `satisfiable()` / `eval` / `batch_eval` / `min` / `max` /
+`solution` (registered symbolic expressions over ANY variables, no extra constraints) / `is_true` / `is_false` (any extra
+constraints) on one composite, from the empty one: EVERY answer of the model is the one `Judge` demands for all the constraints
+added so far (or an honest give-up of a child's backend).  No hypothesis besides `SolverHyps`. -/
 theorem C12_composite_history {E : Env} {R : Con → Prop} {RE : Exp → Prop} (H : SolverHyps R RE E) (track : Bool)
-    (hist : List Op) (hok : ∀ op ∈ hist, InScopeCH R RE (fun _ => True) op) :
+    (hist : List Op) (hok : ∀ op ∈ hist, InScopeCX R RE op) :
     ∀ x ∈ runComp E { c := { track := track }, w := { fes := [] } } [] hist, JudgeOrGiveUp E x.1 x.2.1 x.2.2 :=
-  comp_hist2 H (fun _ _ => Or.inr (reabsorbKeeps H)) hist _ [] [] (cinv_init R RE E track) hok
+  comp_histX H hist _ [] [] (cinv_init R RE E track) hok
+
+/-- non-vacuity: the ten calls of `cCompHist2` (below), then the extrema of the variable -/
+example : InScopeCX cR cRE (.max cExp [] false) ∧ InScopeCX cR cRE (.min cExp [] true) :=
+  ⟨⟨rfl, rfl, rfl⟩, ⟨rfl, rfl, rfl⟩⟩
+
+example (op : Op) (h : InScopeCH cR cRE (fun _ => True) op) : InScopeCX cR cRE op := by
+  cases op <;> first | exact h | exact h.elim
 
 /-- the bookkeeping invariant holds at the end of every such history (so: at every point of it) -/
 theorem C12_composite_history_keeps_invariant {E : Env} {R : Con → Prop} {RE : Exp → Prop} (H : SolverHyps R RE E)
@@ -454,9 +484,9 @@ theorem C12_composite_history_keeps_invariant {E : Env} {R : Con → Prop} {RE :
 /-- one call in ANY state satisfying the invariant: right answer, invariant again -/
 theorem C12_call_correct {E : Env} {R : Con → Prop} {RE : Exp → Prop} (H : SolverHyps R RE E)
     {U : List Con} {Us : List (List Con)} {s : CSt} (h : CInv R RE E U Us s) (op : Op)
-    (hop : InScopeCH R RE (fun _ => True) op) :
+    (hop : InScopeCX R RE op) :
     JudgeOrGiveUp E (usersAfter U op) op (compStep E s op).1 ∧ ∃ Us', CInv R RE E (usersAfter U op) Us' (compStep E s op).2 :=
-  comp_step2 H (fun _ _ => Or.inr (reabsorbKeeps H)) h op hop
+  comp_stepX H h op hop
 
 /-- non-vacuity: the history `cCompHist2` (below) is in scope -/
 example (op : Op) (h : InScopeCH cR cRE OneName op) : InScopeCH cR cRE (fun _ => True) op :=
@@ -497,8 +527,8 @@ example : ∀ op ∈ cCompHist2, InScopeCH cR cRE OneName op := by
 
 /-- **The full statement**: every history of public calls on a CompositeFrontend (hence, with the mixin layers of C11 on top, on
 a SolverComposite) is answered as the property statement demands for all the constraints added.  Proved: **`C12_composite_history`**
-— ANY history of add / satisfiable() / eval / batch_eval / solution (no extra constraints) / is_true / is_false (any extra
-constraints), expressions over any variables, is answered right at EVERY step, and the bookkeeping invariant `CInv` holds at every
+— ANY history of add / satisfiable() / eval / batch_eval / min / max / solution (no extra constraints) / is_true / is_false (any
+extra constraints), expressions over any variables, is answered right at EVERY step, and the bookkeeping invariant `CInv` holds at every
 step (`C12_call_correct`, `C12_composite_history_keeps_invariant`); `combine` (`C12_combine_correct`), `split` / `update` /
 `_reabsorb_solver` (`C12_reabsorb_keeps_invariant`) are proved.  The invariant is the one the code maintains: the marker clauses of
 C11's `MCInv` hold under the guard the code uses (`C12_marker_guarded`; `C12_reabsorb_marker_without_model` is the record that made
@@ -506,9 +536,6 @@ the old form false).  Missing:
   * the value queries with EXTRA constraints: `_ensure_sat(extra)` = `check_satisfiability(extra)` puts the extras on the merged
     solver of their names, reabsorbs it, and checks the other unchecked children (`checkLoop` with `skip`): `compSatisfiable_spec`
     is proved for `extra = []` only; the query itself then needs `Equi` with extras on both sides;
-  * `min`, `max`: as `C12_batch_eval_correct` through `compQuery_judge` / `compQuery_keeps` once the footprint of the child's
-    `min` / `max` is proved: `FullFrontend.min/max` call `self.satisfiable` / `self.eval` (the footprint of the whole class one
-    stage down) and `_extrema`, for which only a specification under `satisfiable` exists (`z3Extrema_spec`);
   * `simplify` (a child's `variables` may keep a variable its constraints lost: `ExactVars` fails, see design_notes/C12.md),
     `branch` / pickling of the composite (children shared copy-on-write between composites);
   * the mixins of class SolverComposite above CompositeFrontend, CompositedCacheMixin among them. -/
